@@ -605,6 +605,47 @@ pub fn generate(level: usize) -> Vec<Scenario> {
         }
     }
 
+    // ---- F15: out-of-memory fallbacks (steal / demote of local reservations): every tree
+    // but one is used up, the remaining free frames sit in a reservation of a *higher* class,
+    // so a lower-class request reaches `steal_local` / `demote_local`; racing with drain,
+    // the owner's allocation and frees
+    for (n, cfg) in [
+        ("3tree-simple1", Config::new(3 * TREE_FRAMES, s1.clone(), InitMode::FreeAll)),
+        ("3tree-movable1", Config::new(3 * TREE_FRAMES, mv.clone(), InitMode::FreeAll)),
+        ("2tree-simple1", Config::new(2 * TREE_FRAMES, s1.clone(), InitMode::FreeAll)),
+    ] {
+        let spec = &cfg.classing;
+        let lo = spec.classes[0].0;
+        let hi = spec.classes[spec.classes.len() - 1].0;
+        let trees = cfg.trees();
+        // the low class fills all trees but one through its slot (its slot keeps an
+        // exhausted reservation), the high class reserves the last tree with a huge frame
+        let mut setup = vec![];
+        for _ in 0..trees - 1 {
+            setup.push(Op::Get { order: TREE_ORDER, class: lo, local: Some(0), target: None });
+        }
+        setup.push(Op::Get { order: HUGE_ORDER, class: hi, local: Some(0), target: None });
+        if probe(&cfg, &setup).iter().any(|r| got(r).is_none()) {
+            continue;
+        }
+        let get_lo = |order: usize, local: Option<usize>| TOp::Do(Op::Get { order, class: lo, local, target: None });
+        let get_hi = |order: usize| TOp::Do(Op::Get { order, class: hi, local: Some(0), target: None });
+        let alpha = vec![
+            AOp { ops: vec![get_lo(0, Some(0))], unique: false },
+            AOp { ops: vec![get_lo(0, None)], unique: false },
+            AOp { ops: vec![get_lo(HUGE_ORDER, Some(0))], unique: false },
+            a(Op::Drain),
+            AOp { ops: vec![get_hi(0)], unique: false },
+            AOp { ops: vec![get_hi(HUGE_ORDER)], unique: false },
+            seq2(get_lo(0, Some(0)), TOp::PutOwn { nth: 0, part: None, local: Some(0) }),
+            seq2(get_lo(0, Some(0)), TOp::Do(Op::Drain)),
+        ];
+        out.extend(pairs(&format!("F15-oom-fallback-{n}"), &cfg, &setup, &alpha));
+        if level > 0 {
+            out.extend(triples(&format!("F15-oom-fallback-{n}"), &cfg, &setup, &alpha[..5]));
+        }
+    }
+
     // ---- F10: two operations per thread (allocate, then free own block)
     {
         let cfg = Config::new(TREE_FRAMES, s1.clone(), InitMode::FreeAll);
